@@ -112,12 +112,18 @@ def check_conv(prog: Program, res: Result) -> None:
     # make_centered_bboxes lists the top-left corner first (premise of R-corner)
     mb = prog.func("sleap_nn.data.instance_cropping:make_centered_bboxes")
     res.touch(mb)
-    d = {norm(s.targets[0]): s.value for s in walk_function(mb.node) if isinstance(s, ast.Assign) and isinstance(s.targets[0], ast.Name)}
-    corners = d.get("corners")
-    ok = isinstance(corners, ast.Call) and norm(corners.func) == "torch.stack" and isinstance(corners.args[0], ast.List) and norm(corners.args[0].elts[0]) == "top_left"
-    tl = d.get("top_left")
-    ok = ok and tl is not None and norm(tl).replace(" ", "") == "torch.stack([x-half_w,y-half_h],dim=-1)"
-    ok = ok and norm(d.get("x")) == "centroids[..., 0]" and norm(d.get("y")) == "centroids[..., 1]" and norm(d.get("half_h")) == "box_height / 2" and norm(d.get("half_w")) == "box_width / 2"
+    rets = [n for n in walk_function(mb.node) if isinstance(n, ast.Return) and n.value is not None]
+    ok = False
+    if len(rets) == 1:
+        full = astq.expand(mb.node, rets[0].value)
+        stacks = [c for c in ast.walk(full) if isinstance(c, ast.Call) and norm(c.func).split(".")[-1] == "stack" and c.args and isinstance(c.args[0], (ast.List, ast.Tuple))
+                  and len(c.args[0].elts) == 4]
+        firsts = {norm(c.args[0].elts[0]).replace(" ", "") for c in stacks}
+        if len(firsts) == 1:
+            first = firsts.pop()
+            ok = first in ("torch.stack([centroids[...,0]-box_width/2,centroids[...,1]-box_height/2],dim=-1)",
+                           "torch.stack((centroids[...,0]-box_width/2,centroids[...,1]-box_height/2),dim=-1)",
+                           "torch.stack([centroids[...,0]-box_width/2,centroids[...,1]-box_height/2],-1)")
     res.ob("C02-corner", ok, mb.qualname, "corner 0 is (x - w/2, y - h/2), the top-left corner",
            "make_centered_bboxes no longer lists (x - box_width/2, y - box_height/2) as its first corner", mb.where)
 
